@@ -1,5 +1,5 @@
-\* liveness of the drift scope: the count settles at spec.replicas also while a drifted node is replaced
-CONSTANTS N = 3  Pre = 1  Limit = 2  Replicas0 = 1  ScaleTo = {1}  Budget = 1  CodeMode = "fixed"  Grain = "gate"
+\* thorough: liveness of the drift scope with four names and a delete
+CONSTANTS N = 4  Pre = 1  Limit = 2  Replicas0 = 1  ScaleTo = {1}  Budget = 1  CodeMode = "fixed"  Grain = "gate"
           MaxCreateFail = 1  MaxTaintFail = 1  MaxDelete = 1  MaxDrift = 1  MaxScale = 0  MaxTimeout = 0  MaxResync = 99  MaxFlip = 99  Record = "none"  MaxLen = 0
 SPECIFICATION LiveSpec
 INVARIANTS TypeOK
